@@ -168,6 +168,13 @@ def order_rules(ctx):
         ctx.require(R4, file_f == FILE_TYPES, "%s:%s" % (nb.file, nb.line), "file family = %s" % sorted(file_f), [MEL, "file-family"])
         ctx.require(R4, cert_f == allv - FILE_TYPES, "%s:%s" % (nb.file, nb.line), "certificate family = all other types (%s)" % sorted(cert_f), [MEL, "cert-family"])
         ctx.require(R4, not (file_f & cert_f) and (file_f | cert_f) == allv, "%s:%s" % (nb.file, nb.line), "the two families partition HookType", [MEL, "partition"])
+    hook_consumers_rule(ctx, R3, nb, allv)
+
+
+def hook_consumers_rule(ctx, R3, nb, allv):
+    """Certificate.hooks / FileManager.hooks in MainEventLoop::new: one get_hooks() result, only filtered, by the predicate `types
+    intersect the consumer's own family` (shared with C05: a challenge hook that also has a file type must still reach the certificate)"""
+    prog = ctx.prog
     # consumers
     for adt, fld, src_call, fam_local in (("acmed::certificate::Certificate", "hooks", "acmed::config::Certificate::get_hooks", "cert_hooks"),
                                           ("acmed::storage::FileManager", "hooks", None, "file_hooks")):
